@@ -174,3 +174,11 @@ package jobqueuecontroller
 //@        && wakeKey[old(wakeN)] == nsname(namespace, name) && wakeAfter[old(wakeN)] >= 1000000000)
 //@   ensures [C20] failed-write-is-reported: jwN == old(jwN) + 1 ==> (result == nil) == jwOK[old(jwN)]
 //@   ensures [C07] log-append-only: forall i int :: i < old(jwN) ==> jwKind[i] == old(jwKind[i]) && jwObj[i] == old(jwObj[i]) && jwOK[i] == old(jwOK[i])
+
+// failed syncs of this reconciler are requeued without limit (C20)
+//@ func PerConfigReconciler.MaxRequeues
+//@   ensures [C20] unlimited-requeues: result == -1
+
+// failed syncs of this reconciler are requeued without limit (C20)
+//@ func IndependentReconciler.MaxRequeues
+//@   ensures [C20] unlimited-requeues: result == -1
